@@ -549,3 +549,40 @@ Lemma wrap_admits :
 Proof.
   exists 100, [A (PReserve 1 0 10)], 2, 1, 18446744073709551611. vm_compute. split; reflexivity.
 Qed.
+
+(* ---------- lock-convoy pairs: the pair oracle holds on the model for the order it ran ---------- *)
+Lemma obs_ok_inv max s r : INV max (sy s) -> obs_ok max (s_pend (sy s)) (r, snap s) = true.
+Proof.
+  intros [Hm Hb Hbu Hn Hi]. unfold obs_ok, snap, total, held, reserved in *.
+  rewrite ents_bytes_snap. apply andb_true_iff. split; [apply N.leb_le; exact Hbu | apply N.eqb_eq; exact Hb].
+Qed.
+
+Lemma gfold_tracks ops : forall s,
+  gfold (s_pend (sy s)) ops (snd (run true s ops)) = s_pend (sy (fst (run true s ops))).
+Proof.
+  induction ops as [|o ops IH]; intros s; cbn [run]; [reflexivity|].
+  pose proof (gstep_tracks s o) as Hg. destruct (step true s o) as [s1 r]. cbn [fst snd] in Hg.
+  specialize (IH s1). destruct (run true s1 ops) as [s2 rs]. cbn [fst snd gfold] in *.
+  rewrite Hg. exact IH.
+Qed.
+
+Lemma pair_check_sound max ttl mr pre a b :
+  let s := fst (run true (init max ttl mr) pre) in
+  let s1 := fst (step true s a) in
+  C13_pair_check max pre (snd (run true (init max ttl mr) pre)) a b
+    (snd (step true s a)) (snd (step true s1 b)) (snap (fst (step true s1 b))) = true.
+Proof.
+  intros s s1. unfold C13_pair_check. destruct (proto max (pre ++ [a; b])) eqn:Hp; [|reflexivity].
+  unfold proto in Hp. rewrite forallb_app in Hp. apply andb_true_iff in Hp. destruct Hp as [Hpre Hab].
+  cbn [forallb] in Hab. apply andb_true_iff in Hab. destruct Hab as [Ha Hb].
+  apply andb_true_iff in Hb. destruct Hb as [Hb _].
+  assert (Hs : INV max (sy s)) by (apply run_inv; [apply INV_init | exact Hpre]).
+  assert (Hs1 : INV max (sy s1)) by (apply step_inv; assumption).
+  assert (Hs2 : INV max (sy (fst (step true s1 b)))) by (apply step_inv; assumption).
+  apply andb_true_iff. split.
+  - exact (check_from_sound max pre (init max ttl mr) (INV_init max) Hpre).
+  - apply orb_true_iff. left.
+    change (@nil (N * phase)) with (s_pend (sy (init max ttl mr))).
+    rewrite gfold_tracks. fold s. rewrite (gstep_tracks s a). fold s1. rewrite (gstep_tracks s1 b).
+    apply obs_ok_inv. exact Hs2.
+Qed.
